@@ -418,7 +418,7 @@ class EvaluateImplNested(EvaluateImpl):
                      z3.BoolVal(exc.origin != "rethrow_with_node_identity"), kind="post-exceptional")
         ctx = I.ctx
         nst = self.gs.get(ctx, "next_scheduled_time")
-        ctx.oblige("raises.nested:parent-scheduled-at-child-cache[C09 no wake-up of the child is lost; C15 later cycles evaluate normally]",
+        ctx.oblige("raises.nested:parent-scheduled-at-child-cache[C09 no wake-up of the child is lost; C15 later cycles evaluate normally; C02 work inside a nested child is honoured]",
                    z3.Implies(self.gs.started0, z3.If(nst < MAX_DT, z3.And(self.gget(ctx, "parent_calls") == 1,
                                                                           self.gget(ctx, "parent_when") == nst),
                                                       self.gget(ctx, "parent_calls") == 0)), kind="post-exceptional")
